@@ -1110,7 +1110,7 @@ func Prop() *core.Prop {
 		},
 		Cases: func(tier string) int {
 			if tier == "thorough" {
-				return 1500000
+				return 4000000
 			}
 			return 60000
 		},
